@@ -246,11 +246,11 @@ Proof.
   unfold bindM at 1. rewrite HP.
   replace (7 + Z.of_nat ol + 1)%Z with (Z.of_nat (7 + ol + 1)) by lia. rewrite zltb_nat.
   change 0%Z with (Z.of_nat 0). rewrite zltb_nat.
+  destruct (match P with Some 0%N => true | _ => false end && (0 <? ol)) eqn:EP.
+  { exists h1, Err. split; [reflexivity|]. split; [exact X1|]. reflexivity. }
   destruct (7 + ol + 1 <? slen s) eqn:E10.
   2:{ exists h1. eexists. split; [reflexivity|]. split; [exact X1|]. reflexivity. }
   apply Nat.ltb_lt in E10.
-  destruct (match P with Some 0%N => true | _ => false end && (0 <? ol)) eqn:EP.
-  { exists h1, Err. split; [reflexivity|]. split; [exact X1|]. reflexivity. }
   destruct (sub_ok s (Z.of_nat (7 + ol + 1)) (Z.of_nat (slen s))) as [s2 Hs2];
     [lia|destruct W as (_ & _ & ?); lia|].
   destruct (sub_spec h1 s (Z.of_nat (7 + ol + 1)) (Z.of_nat (slen s)) s2 W1 ltac:(unfold zlen; lia) Hs2) as (W2 & L2 & B2).
